@@ -1,9 +1,9 @@
-(* C08 proofs, part 10: concrete graphs.  Non-vacuity of the hypotheses, and the witnesses of the
-   statements that are FALSE of the faithful model (each is replayed on the real code by
-   harness/c08.py: refuted_witnesses). *)
+(* C08 proofs, part 10: concrete graphs.  Non-vacuity of the hypotheses of the theorems.  (The graphs G1, G3-G6
+   were the witnesses of the five statements refuted before the fixes 4c6e5fb / 13b815d / edd75a8; the same
+   scenarios now illustrate the repaired behaviour, and stay in corpus/C08/w_*.json for the harness.) *)
 From Coq Require Import List NArith Bool Lia.
 From FIM Require Import Model.T8Graph Model.T8Ops Proofs.T8Frame Proofs.T8Query Proofs.T8Sound Proofs.T8Complete
-     Proofs.T8Handles.
+     Proofs.T8Handles Proofs.T8Fixed.
 Import ListNotations.
 Open Scope N_scope.
 
@@ -54,24 +54,17 @@ Proof.
   unfold sole. rewrite E1, E2. simpl. split; [auto|]. split; [auto|]. intros y [H|[]]. auto.
 Qed.
 
-(* REFUTED: "the service port peering with a deleted interface is deleted with it".
-   Removing n1 deletes the sub-interface 6 and its peering link 17, and leaves service port 16. *)
-Example artefact_ports_deleted_refuted :
-  exists g nm r g' tr l i sp,
-    run (exec true (ORemoveNode nm) []) g = (inl r, (g', tr)) /\
-    link2 g l i sp /\ type_of g sp = T_ServicePort /\ In i tr /\ ~ In sp tr.
-Proof.
-  set (R := run (exec true (ORemoveNode 1) []) G1).
-  exists G1, 1, (match fst R with inl r => r | inr _ => [] end), (fst (snd R)), (snd (snd R)), 17, 6, 16.
-  split; [vm_compute; reflexivity|]. split; [exact link2_G1_17|]. split; [reflexivity|].
-  split.
-  - vm_compute. tauto.
-  - vm_compute. intros H. repeat (destruct H as [H|H]; [discriminate|]). exact H.
-Qed.
+(* removing n1: the connected sub-interface 6 is disconnected too - service ports 8 and 16 and links 9, 17 go *)
+Example ex_remove_node_n1 :
+  ok_of (run (exec true (ORemoveNode 1) []) G1) = true /\
+  trace_of (run (exec true (ORemoveNode 1) []) G1) = [1; 2; 3; 4; 5; 6; 8; 9; 16; 17] /\
+  sortN (disc_list G1 (node_interface_list G1 1)) = [4; 5; 6] /\ topo_nodes G1 1 = [1] /\
+  type_of G1 16 = T_ServicePort.
+Proof. vm_compute. repeat split; reflexivity. Qed.
 
 (* hypotheses of handles_disconnect hold for "net.disconnect_interface(port 13)" *)
 Example ex_disconnect_hyps :
-  class_of G1 7 = CNS /\ sortN (cpn G1 7) = [8; 14; 16] /\ get_peers G1 13 = Some [14] /\ cpn G1 14 = [] /\
+  class_of G1 7 = CNS /\ sortN (cpn G1 7) = [8; 14; 16] /\ get_peers_typed G1 13 T_ServicePort = Some [14] /\ cpn G1 14 = [] /\
   ok_of (run (exec true (ODisconnect 7 13) [[8; 14; 16]]) G1) = true /\
   trace_of (run (exec true (ODisconnect 7 13) [[8; 14; 16]]) G1) = [14; 15].
 Proof. vm_compute. repeat split; reflexivity. Qed.
@@ -98,20 +91,23 @@ Definition G3 : graph := mkGraph
   [ mkEdge 1 3 RConnects; mkEdge 3 4 RConnects; mkEdge 4 5 RConnects; mkEdge 5 6 RConnects; mkEdge 6 7 RConnects;
     mkEdge 7 8 RConnects; mkEdge 8 9 RConnects; mkEdge 2 9 RConnects ].
 
-(* REFUTED: "unpeer of two services that share no peering link deletes nothing (it raises)" *)
-Example unpeer_only_peered_refuted :
-  exists g a b,
-    (forall p, In p (cpn g a) -> forall l, In l (lks g p) -> forall q, In q (cpn g l) -> ~ In q (cpn g b)) /\
-    fst (run (exec true (OUnpeer a b) [[3]; [9]]) g) = inl [[]; []] /\
-    trace_of (run (exec true (OUnpeer a b) [[3]; [9]]) g) = [3; 4; 8; 9].
+(* not peered: no chain of four connects edges from a to b; unpeer raises and deletes nothing *)
+Example ex_unpeer_not_peered :
+  chains4 G3 1 2 = [] /\ unpeer_ends G3 1 2 = None /\
+  fst (run (exec true (OUnpeer 1 2) [[3]; [9]]) G3) = inr ETopology /\
+  trace_of (run (exec true (OUnpeer 1 2) [[3]; [9]]) G3) = [].
+Proof. vm_compute. repeat split; reflexivity. Qed.
+
+Lemma G3_not_peered : forall x m y, In x (cn G3 1) -> In m (cn G3 x) -> In y (cn G3 m) -> ~ In 2 (cn G3 y).
 Proof.
-  exists G3, 1, 2. split; [|vm_compute; split; reflexivity].
-  assert (E1 : cpn G3 1 = [3]) by (vm_compute; reflexivity).
-  assert (E2 : lks G3 3 = [4]) by (vm_compute; reflexivity).
-  assert (E3 : cpn G3 4 = [3; 5]) by (vm_compute; reflexivity).
-  assert (E4 : cpn G3 2 = [9]) by (vm_compute; reflexivity).
-  rewrite E1, E4. intros p [<-|[]] l. rewrite E2. intros [<-|[]] q. rewrite E3.
-  intros [<-|[<-|[]]] [H|[]]; discriminate.
+  assert (E1 : cn G3 1 = [3]) by (vm_compute; reflexivity).
+  assert (E3 : cn G3 3 = [1; 4]) by (vm_compute; reflexivity).
+  assert (E1' : cn G3 1 = [3]) by exact E1.
+  assert (E4 : cn G3 4 = [3; 5]) by (vm_compute; reflexivity).
+  assert (E5 : cn G3 5 = [4; 6]) by (vm_compute; reflexivity).
+  intros x m y Hx. rewrite E1 in Hx. destruct Hx as [<-|[]]. rewrite E3. intros [<-|[<-|[]]].
+  - rewrite E1'. intros [<-|[]]. rewrite E3. simpl. intuition discriminate.
+  - rewrite E4. intros [<-|[<-|[]]]; [rewrite E3 | rewrite E5]; simpl; intuition discriminate.
 Qed.
 
 (* G4: interface 2 is linked (3) to another node interface 4, not to a service port *)
@@ -119,11 +115,10 @@ Definition G4 : graph := mkGraph
   [ mkNode 1 CNS 13 1 false 1; mkNode 2 CCP 4 2 false 1; mkNode 3 CLink 14 3 false 1; mkNode 4 CCP 4 4 false 1 ]
   [ mkEdge 2 3 RConnects; mkEdge 3 4 RConnects ].
 
-(* REFUTED: "disconnect_interface only ever deletes a ServicePort (and its link)" *)
-Example disconnect_only_service_port_refuted :
-  exists g s i x, In x (snd (snd (run (exec true (ODisconnect s i) [[]]) g))) /\
-                  class_of g x = CCP /\ type_of g x <> T_ServicePort.
-Proof. exists G4, 1, 2, 4. vm_compute. split; [auto|]. split; [reflexivity | discriminate]. Qed.
+(* the peer of interface 2 is not a ServicePort: disconnect_interface returns and deletes nothing *)
+Example ex_disconnect_non_service_port :
+  fst (run (exec true (ODisconnect 1 2) [[]]) G4) = inl [[]] /\ trace_of (run (exec true (ODisconnect 1 2) [[]]) G4) = [].
+Proof. vm_compute. split; reflexivity. Qed.
 
 (* G5 / G6: stale handle caches *)
 Definition G5 : graph := mkGraph
@@ -131,22 +126,13 @@ Definition G5 : graph := mkGraph
 Definition G6 : graph := mkGraph
   [ mkNode 1 CCP 4 1 false 1; mkNode 2 CCP 5 7 false 1 ] [ mkEdge 1 2 RConnects ].
 
-(* REFUTED: "after NetworkService.remove_interface the handle's list equals a fresh look-up" *)
-Example handles_remove_interface_refuted :
-  exists g s nm c, same c (cpn g s) /\
-    exists c' g' tr, run (exec false (ORemoveInterface s nm) [c]) g = (inl [c'], (g', tr)) /\ ~ same c' (cpn g' s).
-Proof.
-  exists G5, 1, 7, [2]. split; [intros y; vm_compute; tauto|].
-  exists [2], (mkGraph [mkNode 1 CNS 13 1 false 1] []), [2]. split; [vm_compute; reflexivity|].
-  intros H. destruct (proj1 (H 2)); simpl; auto.
-Qed.
+(* the handle lists follow the removal; the hypotheses of handles_remove_interface / handles_remove_child hold *)
+Example ex_remove_interface_handle :
+  class_of G5 1 = CNS /\ cpn G5 1 = [2] /\ cpn G5 2 = [] /\
+  fst (run (exec false (ORemoveInterface 1 7) [[2]]) G5) = inl [[]].
+Proof. vm_compute. repeat split; reflexivity. Qed.
 
-(* REFUTED: the same for Interface.remove_child_interface *)
-Example handles_remove_child_refuted :
-  exists g p nm c, same c (cpn g p) /\
-    exists c' g' tr, run (exec true (ORemoveChild p nm) [c]) g = (inl [c'], (g', tr)) /\ ~ same c' (cpn g' p).
-Proof.
-  exists G6, 1, 7, [2]. split; [intros y; vm_compute; tauto|].
-  exists [2], (mkGraph [mkNode 1 CCP 4 1 false 1] []), [2]. split; [vm_compute; reflexivity|].
-  intros H. destruct (proj1 (H 2)); simpl; auto.
-Qed.
+Example ex_remove_child_handle :
+  cpn G6 1 = [2] /\ peer_cps G6 2 = [] /\
+  fst (run (exec true (ORemoveChild 1 7) [[2]]) G6) = inl [[]].
+Proof. vm_compute. repeat split; reflexivity. Qed.
